@@ -645,7 +645,7 @@ theorem oidFromEKU_lt (i : Nat) (h : i < 12) : oidFromEKU i = some (ekuTable.get
   rfl
 
 /-- `eku_roundtrip`: for every list of defined `ExtKeyUsage` constants (0 … 11; any other value makes
-    `buildExtensions` panic) and every list of well-formed `UnknownExtKeyUsage` OIDs: what comes back is
+    `buildExtensions` return an error - a panic before the round-12 repair 54b86c2) and every list of well-formed `UnknownExtKeyUsage` OIDs: what comes back is
     the known usages in order FOLLOWED BY those "unknown" OIDs that are in fact in the table (they change
     lists), and as `UnknownExtKeyUsage` the remaining OIDs in order.  Relative order inside each list is
     preserved; the interleaving between the two lists does not exist on the template side either. -/
